@@ -599,6 +599,208 @@ Proof.
   split; [reflexivity|]. intros d H. unfold eff_depth. now replace (d =? -1) with false by lia.
 Qed.
 
+(* ------------------------------------------------------------------ files *)
+
+Lemma bytes_eqb_eq (a b : list byte) : bytes_eqb a b = true <-> a = b.
+Proof.
+  revert b. induction a as [|x a IH]; intros [|y b]; cbn [bytes_eqb]; split; intros H;
+    try reflexivity; try discriminate.
+  - apply andb_prop in H. destruct H as [H1 H2]. apply IH in H2. f_equal; [lia|exact H2].
+  - inversion H; subst. rewrite Z.eqb_refl. cbn. now apply IH.
+Qed.
+
+Lemma bytes_eqb_refl (a : list byte) : bytes_eqb a a = true.
+Proof. now apply bytes_eqb_eq. Qed.
+
+Lemma bytes_eqb_neq (a b : list byte) : a <> b -> bytes_eqb a b = false.
+Proof.
+  intros H. destruct (bytes_eqb a b) eqn:E; [|reflexivity]. apply bytes_eqb_eq in E. contradiction.
+Qed.
+
+Lemma fs_get_set_same fs p c : fs_get (fs_set fs p c) p = Some c.
+Proof.
+  induction fs as [|[q d] t IH]; cbn [fs_set fs_get].
+  - now rewrite bytes_eqb_refl.
+  - destruct (bytes_eqb q p) eqn:E; cbn [fs_get]; rewrite E; [reflexivity|exact IH].
+Qed.
+
+Lemma fs_get_set_other fs p c q : q <> p -> fs_get (fs_set fs p c) q = fs_get fs q.
+Proof.
+  intros H. induction fs as [|[k d] t IH]; cbn [fs_set fs_get].
+  - rewrite bytes_eqb_neq; [reflexivity|congruence].
+  - destruct (bytes_eqb k p) eqn:E; cbn [fs_get].
+    + apply bytes_eqb_eq in E. subst k. rewrite bytes_eqb_neq by congruence. reflexivity.
+    + destruct (bytes_eqb k q); [reflexivity|exact IH].
+Qed.
+
+Lemma fs_set_same fs p c : fs_get fs p = Some c -> fs_set fs p c = fs.
+Proof.
+  induction fs as [|[k d] t IH]; cbn [fs_set fs_get]; [discriminate|].
+  destruct (bytes_eqb k p); intros H.
+  - now inversion H.
+  - now rewrite IH.
+Qed.
+
+Lemma zskipn_nil {A} n : zskipn n (@nil A) = [].
+Proof. unfold zskipn. apply skipn_nil. Qed.
+
+Lemma desc_write_empty bs : desc_write [] 0 bs = bs.
+Proof. unfold desc_write. rewrite zskipn_nil. cbn. apply app_nil_r. Qed.
+
+(* two write() calls at the advancing offset = one write of the concatenation *)
+Lemma desc_write_app old off a b :
+  0 <= off <= zlen old ->
+  desc_write (desc_write old off a) (off + zlen a) b = desc_write old off (a ++ b).
+Proof.
+  intros H. unfold desc_write. pose proof (zlen_nonneg a). pose proof (zlen_nonneg b).
+  assert (L : zlen (zfirstn off old) = off) by (rewrite zlen_zfirstn; lia).
+  rewrite zlen_app.
+  (* the first off + |a| bytes of the intermediate file *)
+  rewrite (app_assoc (zfirstn off old) a).
+  rewrite zfirstn_app_l by (rewrite zlen_app; lia).
+  rewrite zfirstn_all by (rewrite zlen_app; lia).
+  rewrite zskipn_app_r by (rewrite zlen_app; lia).
+  rewrite zlen_app, L.
+  rewrite zskipn_zskipn by lia.
+  rewrite <- !app_assoc. do 3 f_equal. f_equal. lia.
+Qed.
+
+(* O_WRONLY | O_TRUNC | O_CREAT: whatever the path held, it is an empty writable file now *)
+Lemma fs_open_to_file fs p :
+  fs_open None fs p TO_FILE_FLAGS = OpenOk (fs_set fs p []) (mkdesc p 0 false true false).
+Proof. unfold fs_open. destruct (fs_get fs p); reflexivity. Qed.
+
+Lemma fs_open_from_file fs p :
+  fs_open None fs p FROM_FILE_FLAGS =
+  match fs_get fs p with
+  | Some c => OpenOk fs (mkdesc p 0 true false false)
+  | None => OpenFail ENOENT_
+  end.
+Proof.
+  unfold fs_open. destruct (fs_get fs p) as [c|] eqn:E; [|reflexivity].
+  cbn. now rewrite (fs_set_same fs p c E).
+Qed.
+
+(* the shape of every json_object_to_file_ext run that gets past open(): the result is that of
+   the write loop, the file holds exactly what the descriptor received (the old contents are
+   gone), every other file is untouched *)
+Theorem to_file_fs_shape : forall fs p sched ser,
+  exists fs' closes,
+    object_to_file_fs None fs p sched false ser = (object_to_fd sched false ser, fs', 1, closes)
+    /\ fs_get fs' p = Some (wout_dev (object_to_fd sched false ser))
+    /\ (forall q, q <> p -> fs_get fs' q = fs_get fs q)
+    /\ (forall rc m d c, object_to_fd sched false ser = WRet rc m d c -> closes = 1).
+Proof.
+  intros fs p sched ser. unfold object_to_file_fs, object_to_file_with.
+  rewrite fs_open_to_file. cbn [d_wr]. unfold object_to_fd.
+  set (r := object_to_fd_inner sched ser).
+  eexists. eexists. split; [reflexivity|]. repeat split.
+  - unfold fs_deliver. cbn [d_path d_app d_off]. rewrite fs_get_set_same, desc_write_empty.
+    apply fs_get_set_same.
+  - intros q Hq. unfold fs_deliver. cbn [d_path d_app d_off]. rewrite fs_get_set_same.
+    now rewrite !fs_get_set_other by exact Hq.
+  - intros rc m d c E. now rewrite E.
+Qed.
+
+(* a fresh path, an existing longer file, an existing shorter file, a second write to the same
+   path — [fs] is arbitrary: after a successful run the file holds exactly the serialization *)
+Theorem to_file_holds_serialization : forall fs p sched ser,
+  Forall ge1 sched -> zlen (c_str ser) <= wsum sched ->
+  exists calls fs',
+    object_to_file_fs None fs p sched false (Some ser) = (WRet 0 false (c_str ser) calls, fs', 1, 1)
+    /\ fs_get fs' p = Some (c_str ser)
+    /\ (forall q, q <> p -> fs_get fs' q = fs_get fs q).
+Proof.
+  intros fs p sched ser HF Hs.
+  destruct (write_exact sched ser HF Hs) as (calls & E & _).
+  destruct (to_file_fs_shape fs p sched (Some ser)) as (fs' & closes & E1 & G & O & C).
+  rewrite E in *. cbn [wout_dev] in G. exists calls, fs'.
+  rewrite (C _ _ _ _ eq_refl) in E1. auto.
+Qed.
+
+(* a failing write(): -1, message, the descriptor closed, and the file holds the bytes of the
+   transfers before the failing call (its previous contents were dropped at open()) *)
+Theorem to_file_error : forall fs p pre e post ser,
+  Forall ge1 pre -> wsum pre < zlen (c_str ser) ->
+  exists fs',
+    object_to_file_fs None fs p (pre ++ Err e :: post) false (Some ser) =
+      (WRet (-1) true (zfirstn (wsum pre) (c_str ser)) (zlen pre + 1), fs', 1, 1)
+    /\ fs_get fs' p = Some (zfirstn (wsum pre) (c_str ser))
+    /\ (forall q, q <> p -> fs_get fs' q = fs_get fs q).
+Proof.
+  intros fs p pre e post ser HF Hs.
+  destruct (write_error pre e post ser HF Hs) as (E & _).
+  destruct (to_file_fs_shape fs p (pre ++ Err e :: post) (Some ser)) as (fs' & closes & E1 & G & O & C).
+  rewrite E in *. cbn [wout_dev] in G. exists fs'.
+  rewrite (C _ _ _ _ eq_refl) in E1. auto.
+Qed.
+
+(* open() refused: reported, nothing created, nothing changed, nothing to close *)
+Theorem to_file_open_denied : forall e fs p sched ser,
+  object_to_file_fs (Some e) fs p sched false ser = (WRet (-1) true [] 0, fs, 1, 0).
+Proof. reflexivity. Qed.
+
+(* the O_TRUNC flag is what makes the theorem above true: without it an existing longer file
+   keeps its tail after a "successful" write *)
+Definition TO_FILE_FLAGS_NO_TRUNC : oflags := mkofl O_WRONLY true false false false.
+
+Theorem to_file_without_trunc_keeps_stale_tail : forall fs p old sched ser,
+  fs_get fs p = Some old -> zlen (c_str ser) < zlen old ->
+  Forall ge1 sched -> zlen (c_str ser) <= wsum sched ->
+  exists calls fs',
+    object_to_file_with TO_FILE_FLAGS_NO_TRUNC None fs p sched false (Some ser) =
+      (WRet 0 false (c_str ser) calls, fs', 1, 1)
+    /\ fs_get fs' p = Some (c_str ser ++ zskipn (zlen (c_str ser)) old)
+    /\ c_str ser ++ zskipn (zlen (c_str ser)) old <> c_str ser.
+Proof.
+  intros fs p old sched ser G Hl HF Hs.
+  destruct (write_exact sched ser HF Hs) as (calls & E & _).
+  unfold object_to_fd in E.
+  unfold object_to_file_with, fs_open. rewrite G. cbn -[object_to_fd_inner fs_deliver]. rewrite E. cbn [wout_dev].
+  eexists. eexists. split; [reflexivity|].
+  unfold fs_deliver. cbn [d_path d_app d_off]. rewrite fs_get_set_same, fs_get_set_same.
+  split.
+  - unfold desc_write. reflexivity.
+  - intros H. apply (f_equal zlen) in H. rewrite zlen_app, zlen_zskipn in H.
+    pose proof (zlen_nonneg (c_str ser)). lia.
+Qed.
+
+(* json_object_from_file on the file system: an absent path is a reported failure; a present
+   one gives the in-memory parse of its contents; the file system is unchanged either way *)
+Theorem from_file_fs_absent : forall fs p parse app_ok sched,
+  fs_get fs p = None ->
+  object_from_file_fs None fs p parse app_ok sched = (RRet (mkrout JNull MOpen 0 None 0), fs, 1, 0).
+Proof.
+  intros fs p parse app_ok sched G. unfold object_from_file_fs, object_from_file_with.
+  rewrite fs_open_from_file, G. reflexivity.
+Qed.
+
+Theorem from_file_fs_present : forall fs p c parse app_ok sched,
+  fs_get fs p = Some c -> always app_ok -> Forall ge1 sched -> zlen c < zlen sched ->
+  exists reads, object_from_file_fs None fs p parse app_ok sched =
+                  (RRet (memory_result parse (-1) c reads), fs, 1, 1).
+Proof.
+  intros fs p c parse app_ok sched G HA HF Hl. unfold object_from_file_fs, object_from_file_with.
+  rewrite fs_open_from_file, G. cbn [d_rd]. rewrite G. unfold object_from_fd.
+  destruct (read_as_memory parse app_ok sched c (-1) HA HF Hl) as (r & Hr & _); [cbv; discriminate|].
+  exists r. now rewrite Hr.
+Qed.
+
+(* write then read back, any two schedules: the one in-memory parse of the serialization *)
+Theorem file_roundtrip : forall fs p s1 s2 ser parse app_ok,
+  Forall ge1 s1 -> zlen (c_str ser) <= wsum s1 ->
+  always app_ok -> Forall ge1 s2 -> zlen (c_str ser) < zlen s2 ->
+  exists calls fs' reads,
+    object_to_file_fs None fs p s1 false (Some ser) = (WRet 0 false (c_str ser) calls, fs', 1, 1) /\
+    object_from_file_fs None fs' p parse app_ok s2 =
+      (RRet (memory_result parse (-1) (c_str ser) reads), fs', 1, 1).
+Proof.
+  intros fs p s1 s2 ser parse app_ok H1 L1 HA H2 L2.
+  destruct (to_file_holds_serialization fs p s1 ser H1 L1) as (calls & fs' & E & G & _).
+  destruct (from_file_fs_present fs' p (c_str ser) parse app_ok s2 G HA H2 L2) as (reads & R).
+  now exists calls, fs', reads.
+Qed.
+
 (* ------------------------------------------------------------------ non-vacuity *)
 
 (* "hello" = 104 101 108 108 111 *)
@@ -645,3 +847,25 @@ Example read_chunked_at_buffer_size :
   exists o, object_from_fd_ex show_parse (fun _ _ => true) [Short 100000; Short 100000; Short 100000; Short 1]
               (zrepeat 32 8192) 7 = RRet o /\ r_reads o = 3 /\ r_parsed o = Some (7, zrepeat 32 8192).
 Proof. eexists. vm_compute. repeat split. Qed.
+
+(* path "a" = [97]; the file held 9 bytes, the serialization has 3 *)
+Example file_nonvacuous :
+  let fs := [([97], [49;50;51;52;53;54;55;56;57])] in
+  object_to_file_fs None fs [97] [Short 2; Short 5] false (Some [91;49;93]) =
+    (WRet 0 false [91;49;93] 2, [([97], [91;49;93])], 1, 1)
+  /\ object_to_file_with TO_FILE_FLAGS_NO_TRUNC None fs [97] [Short 2; Short 5] false (Some [91;49;93]) =
+    (WRet 0 false [91;49;93] 2, [([97], [91;49;93;52;53;54;55;56;57])], 1, 1)
+  /\ object_to_file_fs None fs [98] [Short 9] false (Some [91;49;93]) =
+    (WRet 0 false [91;49;93] 1, [([97], [49;50;51;52;53;54;55;56;57]); ([98], [91;49;93])], 1, 1)
+  /\ object_to_file_fs None fs [97] [Short 1; Err 28] false (Some [91;49;93]) =
+    (WRet (-1) true [91] 2, [([97], [91])], 1, 1)
+  /\ object_from_file_fs None fs [98] show_parse (fun _ _ => true) [Short 9; Short 9] =
+    (RRet (mkrout JNull MOpen 0 None 0), fs, 1, 0)
+  /\ object_from_file_fs None fs [97] show_parse (fun _ _ => true) [Short 4; Short 9; Short 9] =
+    (RRet (mkrout (JArr [JInt 32; JStr [49;50;51;52;53;54;55;56;57]]) MNone 3
+                  (Some (32, [49;50;51;52;53;54;55;56;57])) 0), fs, 1, 1)
+  /\ object_to_file_with (mkofl O_RDONLY false false false false) None fs [97] [Short 9] false (Some [91;49;93]) =
+    (WRet (-1) true [] 1, fs, 1, 1)
+  /\ object_to_file_with (mkofl O_WRONLY true false true false) None fs [97] [Short 9] false (Some [91;49;93]) =
+    (WRet 0 false [91;49;93] 1, [([97], [49;50;51;52;53;54;55;56;57;91;49;93])], 1, 1).
+Proof. repeat split. Qed.
